@@ -247,7 +247,11 @@ func Execute(c *Case, opt ExecOptions) (rr RunResult) {
 		rr.RaceText = raceLog.readNew()
 	}
 	if opt.Lifetimes {
-		simrt.DrainFinalizers()
+		// collect only after every other run, so that objects that died in one
+		// run can still be found (through weak tables, free lists) by the next
+		if spec.Index%2 == 1 {
+			simrt.DrainFinalizers()
+		}
 	} else {
 		runtime.GC()
 	}
